@@ -141,6 +141,12 @@ func genC05Layout(t *rapid.T, label string, steps []c01Step) c05Layout {
 		}
 		if kind == "disk-reopened" {
 			l.Post = []string{"reopen"}
+			if rapid.Bool().Draw(t, label+".keepSegments") {
+				// keep the segments apart until the reopen: what is read back then is one
+				// deletion bitmap per segment, not a merged segment without deletions
+				l.Cfg.MaxSegPerTier, l.Cfg.FloorSegSize, l.Cfg.SegPerMerge = 100, 1, 10
+				l.Cfg.Workers, l.Cfg.MaxMemMerge = 0, 0
+			}
 		}
 		if rapid.IntRange(0, 3).Draw(t, label+".settle") == 0 {
 			l.Post = append(l.Post, "settle")
